@@ -62,8 +62,11 @@ CtlPar(q) == IF q = "cteam" THEN "cdept" ELSE IF q = "rteam" THEN "rdept" ELSE "
                 consolidation considers moving the job's pods
      reclaimer  pending, the cluster part is full of a well-formed running job of another queue over its fair share
      preemptor  pending with higher priority, the cluster part is full of a well-formed lower-priority running job
-                of the same queue *)
-Sits == {"alloc", "vreclaim", "vpreempt", "vconsol", "reclaimer", "preemptor"}
+                of the same queue
+     stale      one pod RUNNING, the other cannot be placed, and the pod group has been below its minimum for
+                longer than the grace period (stale time stamp two hours old): stalegangeviction evicts the job
+                when its gang is unsatisfied *)
+Sits == {"alloc", "vreclaim", "vpreempt", "vconsol", "reclaimer", "preemptor", "stale"}
 NonAlloc == SitSet \ {"alloc"}
 
 (***************************************************************************)
